@@ -34,6 +34,7 @@ class Adapter:
         self.unit = float(cfg.get("unit", UNIT))       # length of one model time unit in seconds: 10 s, or sub-second, or more than half a day (timedelta components)
         self.clock = shims.VClock()
         shims.install_clock(self.loops, self.clock)
+        shims.install_locks(self.loops)               # owner-aware locks: a call that re-takes the loop's own lock is observed as a hang instead of hanging the check
         self.logic = {g.value: g for g in self.loops.GateLogic}[cfg["logic"]]
         pairs = SMALL if cfg["vset"] == "small" else list(itertools.product(VERDICT, VERDICT))
         z = {"p": "none", "z": "none", "y": "none", "d": 0}
@@ -78,6 +79,8 @@ class Adapter:
         loop, op = w["loop"], a["op"]
         obs = {"blocked": True, "success": False, "action": "none", "token": False, "tokenOK": True, "cached": False, "dinv": 0, "dspent": 0, "raised": False}
         pre = self.project(w)
+        dl = shims.deadline(8.0)
+        dl.__enter__()
         try:
             if op == "request":
                 w["ex"].verdict, w["as"].verdict = a["z"], a["y"]
@@ -94,8 +97,12 @@ class Adapter:
                 self.clock.advance(a["d"] * self.unit)
             elif op == "reset":
                 loop.reset_circuit_breaker()
+        except (shims.SelfDeadlock, shims.Hung) as ex:
+            obs["raised"], obs["hang"], obs["exc"] = True, True, "the call never returns (%s)" % type(ex).__name__
         except Exception as ex:
             obs["raised"], obs["exc"] = True, "%s: %s" % (type(ex).__name__, ex)
+        finally:
+            dl.__exit__()
         post = self.project(w)
         # shadows of TLC's cache / monitors (dedup only)
         if op == "reset":
